@@ -208,21 +208,46 @@ fn gen_config(rng: &mut Rng, need_hints: bool) -> Config {
 
 /// Upstream that answers every question with upstream-tagged data (what a hostile or merely different
 /// outside world would say about the names the local zones own).
-fn upstream_responder() -> Responder {
+/// Address of the second-level upstream server every top-level name is delegated to.
+const UP2: Ipv4Addr = Ipv4Addr::new(198, 18, 250, 1);
+
+fn upstream_responder(forwarder: bool) -> Responder {
     Box::new(move |ctx: &Ctx| {
         let Some(req) = ctx.request else { return (Action::Fail, "bad".into()) };
         let q = &req.questions[0];
         let h = fnv(show_name(&q.name).as_bytes());
-        let answers = match q.qtype {
-            QueryType::Record(RecordType::A) => vec![rr(&q.name, a(Ipv4Addr::new(198, 18, (h / 250 % 250) as u8, (h % 250) as u8 + 1)), 300)],
-            QueryType::Record(RecordType::AAAA) => vec![rr(&q.name, aaaa(Ipv6Addr::new(0x2001, 0xdb8, 0xeeee, 0, 0, 0, 0, (h % 250) as u16)), 300)],
-            QueryType::Record(RecordType::TXT) => vec![rr(&q.name, txt(b"up:stream"), 300)],
-            QueryType::Record(RecordType::MX) => vec![rr(&q.name, mx(7, &dn("mx.upstream.example.")), 300)],
-            _ => vec![],
+        let up_host = dn("ns.upstream-level2.example.");
+        // the root server refers every name to a second server (so that answers arrive after a referral),
+        // except questions about that server's own name
+        if !forwarder && ctx.addr.ip() != IpAddr::V4(UP2) && q.name.labels.len() >= 2 && q.name != up_host {
+            let tld = verif_harness::refmodel::zone::suffix_of(&q.name, 2);
+            let authority = vec![rr(&tld, ns(&up_host), 300)];
+            let additional = vec![rr(&up_host, a(UP2), 300)];
+            return (Action::Reply(encode(&reply_to(req, Rcode::NoError, false, vec![], authority, additional))), "upstream-refers".into());
+        }
+        let ua = || rr(&q.name, a(Ipv4Addr::new(198, 18, (h / 250 % 200) as u8, (h % 250) as u8 + 1)), 300);
+        let uaaaa = || rr(&q.name, aaaa(Ipv6Addr::new(0x2001, 0xdb8, 0xeeee, 0, 0, 0, 0, (h % 250) as u16)), 300);
+        let utxt = || rr(&q.name, txt(b"up:stream"), 300);
+        let umx = || rr(&q.name, mx(7, &dn("mx.upstream.example.")), 300);
+        let answers = if q.name == up_host {
+            match q.qtype {
+                QueryType::Record(RecordType::A) | QueryType::Wildcard => vec![rr(&up_host, a(UP2), 300)],
+                _ => vec![],
+            }
+        } else {
+            match q.qtype {
+                QueryType::Record(RecordType::A) => vec![ua()],
+                QueryType::Record(RecordType::AAAA) => vec![uaaaa()],
+                QueryType::Record(RecordType::TXT) => vec![utxt()],
+                QueryType::Record(RecordType::MX) => vec![umx()],
+                // the outside world has an opinion about every type of the name
+                QueryType::Wildcard => vec![ua(), uaaaa(), utxt(), umx()],
+                _ => vec![],
+            }
         };
         let authority = if answers.is_empty() {
             vec![rr(
-                &DomainName::root_domain(),
+                &verif_harness::refmodel::zone::suffix_of(&q.name, q.name.labels.len().min(2)),
                 RecordTypeWithData::SOA {
                     mname: dn("up."),
                     rname: dn("up."),
@@ -632,7 +657,7 @@ fn case(rng: &mut Rng, sim: &mut Sim, sh: &mut Shard, tr: &mut Tracer, coords: V
             }
             sh.eval();
             tr.begin(|| json!({"coords": coords, "question": question_json(&q), "mode": mode.name()}));
-            let out = sim.resolve(upstream_responder(), &mode, &cfg.zones, &cache, &q);
+            let out = sim.resolve(upstream_responder(mode.forward.is_some()), &mode, &cfg.zones, &cache, &q);
             tr.end();
             let replay = || {
                 json!({"kind": "local-vs-cache-vs-upstream", "coords": coords, "mode": mode.name(), "question": question_json(&q), "configuration": config_json(&cfg),
